@@ -22,7 +22,8 @@ def check(ctx, rep):
     F.rule_value_display(fm, rep, 'R5')
     K.rule_prefix(fm, rep, 'R6')
     K.rule_tag_plumbing(fm, rep, 'R6p')
-    K.rule_nonempty(fm, rep, 'R7')
+    from .common import DropOnly
+    K.rule_nonempty(fm, DropOnly(rep, ('rejects-only-empty-lists',)), 'R7')      # what is refused is C02/C03's business
     F.rule_constructors(fm, rep, 'R8')
     F.rule_setters(fm, rep, 'R9')
     K.rule_try_send(fm, rep, 'R10')
